@@ -91,13 +91,19 @@ func (c *CtlDup) Aa__Bb(a *world.Payload) (c10ret, *erpc.Status) {
 
 type PushA struct{ erpc.PushCtx }
 
-func (c *PushA) Note(a *world.Payload) *erpc.Status   { c10id(c, "PushA.Note", "push", a); return nil }
-func (c *PushA) Ev_Ent(a *world.Payload) *erpc.Status { c10id(c, "PushA.Ev_Ent", "push", a); return nil }
+func (c *PushA) Note(a *world.Payload) *erpc.Status { c10id(c, "PushA.Note", "push", a); return nil }
+func (c *PushA) Ev_Ent(a *world.Payload) *erpc.Status {
+	c10id(c, "PushA.Ev_Ent", "push", a)
+	return nil
+}
 
 // PushAaBb shares method names with CtlA on purpose: the namespaces must stay apart.
 type CtlAPush struct{ erpc.PushCtx }
 
-func (c *CtlAPush) AaBb(a *world.Payload) *erpc.Status { c10id(c, "CtlAPush.AaBb", "push", a); return nil }
+func (c *CtlAPush) AaBb(a *world.Payload) *erpc.Status {
+	c10id(c, "CtlAPush.AaBb", "push", a)
+	return nil
+}
 
 func C10FnOne(c erpc.CallCtx, a *world.Payload) (c10ret, *erpc.Status) {
 	c10id(c, "C10FnOne", "call", a)
@@ -107,7 +113,10 @@ func C10_fn_two(c erpc.CallCtx, a *world.Payload) (c10ret, *erpc.Status) {
 	c10id(c, "C10_fn_two", "call", a)
 	return &world.Payload{Tag: a.Tag, Data: "C10_fn_two"}, nil
 }
-func C10PushFn(c erpc.PushCtx, a *world.Payload) *erpc.Status { c10id(c, "C10PushFn", "push", a); return nil }
+func C10PushFn(c erpc.PushCtx, a *world.Payload) *erpc.Status {
+	c10id(c, "C10PushFn", "push", a)
+	return nil
+}
 
 // ---- independent reference mapper (written from the README rules) ----
 func refSegments(name string) []string {
